@@ -11,7 +11,8 @@ import vlib
 
 IDS = ["none", "half", "listen", "target", "stranger"]
 MIDS = ["none", "tunnel", "other"]
-SECRETS = ["none", "right", "wrong"]
+SECRETS = ["none", "right", "wrong", "prefix1", "prefixall", "suffix", "plus", "case", "onechar", "other"]
+BOUNDARY = SECRETS[3:]
 MSTATES = ["active", "revoked", "expired", "inactive", "missing"]
 TSTATES = ["none", "waiting", "served", "remote"]
 
@@ -31,6 +32,13 @@ K_CROSS = "pinned-cross-node-unvalidated"
 K_SECRET = "pinned-secret-path-skips-isvalid"
 
 
+SECRET_TEXT = {"none": "no secret", "right": "the named mapping's secret", "wrong": "an unrelated wrong secret",
+               "prefix1": "the FIRST CHARACTER of the named mapping's secret", "prefixall": "the named mapping's secret WITHOUT ITS LAST CHARACTER",
+               "suffix": "the named mapping's secret without its first character", "plus": "the named mapping's secret plus one character",
+               "case": "the named mapping's secret with the case flipped", "onechar": "the named mapping's secret with its last character changed",
+               "other": "the right secret of ANOTHER mapping"}
+
+
 def all_cells():
     return [dict(id=i, mid=m, secret=s, resume=r, mstate=ms, tstate=ts)
             for i in IDS for m in MIDS for s in SECRETS for r in (False, True) for ms in MSTATES for ts in TSTATES]
@@ -45,7 +53,7 @@ def describe(c):
            "listen": "the mapping's listening client", "target": "the mapping's target client",
            "stranger": "an authenticated client unrelated to the tunnel's mapping"}[c["id"]]
     names = {"none": "no mapping id", "tunnel": "the tunnel's mapping id", "other": "the id of another mapping (its own)"}[c["mid"]]
-    sec = {"none": "no secret", "right": "the named mapping's secret", "wrong": "a wrong secret"}[c["secret"]]
+    sec = SECRET_TEXT[c["secret"]]
     ts = {"none": "a tunnel id nobody uses", "waiting": "the id of a tunnel whose bridge waits for its target on this node",
           "served": "the id of a tunnel already connected end to end", "remote": "the id of a tunnel waiting on another node"}[c["tstate"]]
     return "%s sends TunnelOpen with %s, %s%s, %s (named/tunnel mapping is %s)" % (
@@ -174,7 +182,59 @@ def directed_histories():
     out.append(H(True, O("T", "m1", "right"), SL(260), O("L", "m1", "right")))
     out.append(H(True, O("T", "m1", "right", 1), O("L", "m1", "right", 0), O("L", "m1", "right", 1)))
     out.append(H(True, RT(0, "other", "m1"), O("T", "m1", "right"), O("X", "m2", "right"), RT(0, "none"), O("none", "m1", "none")))
+    # boundary secrets in every family: after a legitimate open / on a live tunnel / parked early / on a routing record
+    for k in ["wrong"] + BOUNDARY:
+        out.append(H(False, O("L", "m1", "right"), O("T", "m1", k), O("L", "m1", k, 1), O("T", "m1", "right")))
+        out.append(H(False, O("L", "m1", k), O("T", "m1", k), O("S", "m2", k, 1)))
+        out.append(H(True, O("T", "m1", k), O("L", "m1", "right"), O("T", "m1", "right")))
+        out.append(H(True, RT(0, "other", "m1"), O("T", "m1", k), O("L", "m1", k, 1)))
     return [h for h in out if hist_valid(h)]
+
+
+def race_cases(rng, thorough):
+    """two TunnelOpen requests for ONE tunnel id: B is parked (gate n>0: at its n-th storage read of the mapping it names; 0: at
+    its acknowledgement write, i.e. after the tunnelBridges lookup and before create/attach; -1: not at all), A runs to
+    completion, B is released.  Every ordered pair of the request list = both orders."""
+    reqs = [("L", "m1", "right"), ("L", "m1", "none"), ("T", "m1", "right"), ("S", "m2", "right"), ("S", "m2", "none"),
+            ("X", "m2", "right"), ("X", "m1", "right"), ("T", "m2", "right"), ("none", "m1", "none"),
+            ("T", "m1", "prefixall"), ("X", "m2", "other"), ("L", "m1", "prefix1")]
+    out = []
+    for a in reqs:
+        for b in reqs:
+            for g in (-1, 0, 1, 2, 3, 4):
+                if g > 0 and a[1] == b[1]:
+                    continue     # reads of ONE mapping key are coalesced by the repository's singleflight: parking one parks both
+                out.append({"mode": "race", "a": dict(who=a[0], mid=a[1], secret=a[2]), "b": dict(who=b[0], mid=b[1], secret=b[2]), "gate": g})
+    if not thorough:
+        keep = [c for c in out if c["gate"] in (0, -1)]
+        rest = [c for c in out if c["gate"] not in (0, -1)]
+        rng.shuffle(rest)
+        out = keep + rest[:200]
+    return out
+
+
+P_RACE = {"mode": "race", "a": dict(who="L", mid="m1", secret="right"), "b": dict(who="X", mid="m2", secret="right"), "gate": 0}
+K_RACE = "race-late-attach-unvalidated"
+
+
+def race_str(c):
+    g = {-1: "B runs entirely first", 0: "B parked at its acknowledgement write (after the tunnelBridges lookup, before create/attach)"}.get(
+        c["gate"], "B parked at its read #%d of the mapping it names" % c["gate"])
+    return "A=TunnelOpen(%s,%s,%s) B=TunnelOpen(%s,%s,%s) on ONE tunnel id; %s, A runs to completion, B is released" % (
+        c["a"]["who"], c["a"]["mid"], c["a"]["secret"], c["b"]["who"], c["b"]["mid"], c["b"]["secret"], g)
+
+
+def race_value(vf_si, late, c, o):
+    if not o["b_parked"]:
+        sched = 0
+    elif c["gate"] == 0:
+        sched = 1
+    elif c["gate"] == 1:
+        sched = 2
+    else:
+        return None          # park point relative to the lookup depends on the credential path: predicate only
+    enc = lambda r: [WHO.index(r["who"]), HMID.index(r["mid"]), SECRETS.index(r["secret"])]
+    return [list(vf_si), [98, late, False], enc(c["a"]), enc(c["b"]), [sched], [o["mid_end"], o["src"], o["tgt"]]]
 
 
 def random_history(rng, routing):
@@ -185,7 +245,7 @@ def random_history(rng, routing):
         if k < 0.62:
             who = rng.choice(["L", "L", "T", "T", "S", "X", "X", "none", "half"])
             mid = rng.choice(["m1", "m1", "m1", "m2", "m2", "none"])
-            secret = rng.choice(["none", "right", "right", "wrong"])
+            secret = rng.choice(["none", "right", "right", "right", "wrong"] + BOUNDARY)
             steps.append(O(who, mid, secret, rng.choice([0, 0, 0, 1])))
         elif k < 0.82:
             steps.append(SM(rng.choice(["m1", "m1", "m2"]), rng.choice(["active", "revoked", "expired", "inactive", "missing", "revoked"])))
@@ -200,10 +260,10 @@ def random_history(rng, routing):
 
 def exhaustive_histories(routing, depth):
     if routing:
-        alpha = [O("T", "m1", "right"), O("X", "m2", "right"), O("L", "m1", "right"), O("S", "m2", "none"),
+        alpha = [O("T", "m1", "right"), O("X", "m2", "right"), O("L", "m1", "right"), O("S", "m2", "none"), O("T", "m1", "prefixall"),
                  RT(0, "other", "m1"), RT(0, "none"), SM("m1", "revoked"), CL(0)]
     else:
-        alpha = [O("L", "m1", "none"), O("L", "m1", "right"), O("T", "m1", "right"), O("X", "m2", "right"), O("none", "m1", "none"),
+        alpha = [O("L", "m1", "none"), O("L", "m1", "right"), O("T", "m1", "right"), O("X", "m2", "right"), O("none", "m1", "none"), O("T", "m1", "prefix1"),
                  SM("m1", "revoked"), SM("m1", "active"), SM("m1", "expired"), CL(0)]
     out = []
 
@@ -316,7 +376,8 @@ def run(ctx, only_cases=None):
     hists = []
     if only_cases is not None:
         hists = [c for c in only_cases if c.get("mode") == "hist"]
-        cases = list(PROBES) + [c for c in only_cases if c.get("mode") != "hist"]
+        races = [P_RACE] + [c for c in only_cases if c.get("mode") == "race"]
+        cases = list(PROBES) + [c for c in only_cases if c.get("mode") not in ("hist", "race")]
     else:
         table = all_cells()
         rng.shuffle(table)                       # arrival order varies with the seed: cells must not influence one another
@@ -327,18 +388,21 @@ def run(ctx, only_cases=None):
                 rng.shuffle(t2)
                 cases += t2
         corpus_h = [c for c in cases if c.get("mode") == "hist"]
-        cases = [c for c in cases if c.get("mode") != "hist"]
+        races = [P_RACE] + [c for c in cases if c.get("mode") == "race"] + race_cases(rng, thorough)
+        cases = [c for c in cases if c.get("mode") not in ("hist", "race")]
         hists = corpus_h + directed_histories()
         hists += [random_history(rng, False) for _ in range(1500 if thorough else 350)]
         hists += [random_history(rng, True) for _ in range(400 if thorough else 110)]
         hists = [h for h in hists if hist_valid(h)]
         if thorough:
             hists += exhaustive_histories(False, 3) + exhaustive_histories(False, 4) + exhaustive_histories(True, 3)
-    outs = vlib.run_harness(binary, cases, timeout=900)
+    outs = vlib.run_harness(binary, cases[:len(PROBES)], timeout=900) + run_sharded(binary, cases[len(PROBES):], 8 if thorough else 5)
     h_local = [h for h in hists if not h["routing"]]
     h_route = [h for h in hists if h["routing"]]
     hists = h_local + h_route
     houts = run_sharded(binary, h_local, 2) + run_sharded(binary, h_route, 12 if thorough else 6)
+    routs = vlib.run_harness(binary, races[:1], timeout=300) + run_sharded(binary, races[1:], 4)
+    late_defect = routs[0]["tgt"] == 2          # witness of the interleaving defect: B (mapping 2's target) is target of mapping 1's bridge
 
     def probe(p):
         return outs[PROBES.index(p)]
@@ -396,6 +460,25 @@ def run(ctx, only_cases=None):
             ctx.violation("hist:" + so.get("class", "?").split(":")[0] + ":" + hist_str(small),
                           "real SessionManager.HandlePacket, history [%s]: %s" % (hist_str(small), so["prop_msg"]),
                           {"case": small, "observed": so})
+    # two-request interleavings: the predicate after both requests finished
+    rfail = rknown = 0
+    for c, o in zip(races, routs):
+        if o["prop_ok"]:
+            continue
+        late = (o.get("class") == "race-attach" and late_defect and o["tgt"] != 0 and o["b_parked"] and
+                "is the bridge's target" in o["prop_msg"] or (late_defect and "read bytes" in o["prop_msg"] and o["tgt"] != 0 and o["b_parked"]))
+        if late:
+            rknown += 1
+            if K_RACE not in reported:
+                reported.add(K_RACE)
+                ctx.violation(K_RACE, "real SessionManager.HandlePacket, interleaving [%s]: %s" % (race_str(c), o["prop_msg"]), {"case": c, "observed": o})
+            continue
+        rfail += 1
+        nfail += 1
+        key = "race:" + o.get("class", "?") + ":" + "%s-%s-%s_vs_%s-%s-%s_gate%d" % (c["a"]["who"], c["a"]["mid"], c["a"]["secret"], c["b"]["who"], c["b"]["mid"], c["b"]["secret"], c["gate"])
+        if len([k for k in reported if k.startswith("race:")]) < 3:
+            reported.add(key)
+            ctx.violation(key, "real SessionManager.HandlePacket, interleaving [%s]: %s" % (race_str(c), o["prop_msg"]), {"case": c, "observed": o})
     for h, o in zip(hists, houts):
         for st, so in zip(h["steps"], o["steps"]):
             if st["op"] == "open" and so["registered"] != (st["who"] != "none"):
@@ -419,6 +502,26 @@ def run(ctx, only_cases=None):
                               "[%s]: model predicts per step [ack, role, snapshot]=%s, observed %s; the history theorems of Properties/C04.v no "
                               "longer speak about this code" % (hist_str(hsrc[i][0]), hpred[i], [[x["ack"], x["role"], x["snap"]] for x in hsrc[i][1]["steps"]]),
                               {"case": hsrc[i][0], "observed": hsrc[i][1], "model": hpred[i]}, found_input=False)
+    except vlib.Broken as b:
+        broken = broken or b
+    rterms, rsrc = [], []
+    for c, o in zip(races, routs):
+        if o.get("class") == "setup":
+            continue
+        v = race_value([vf, si], not late_defect, c, o)
+        if v is not None:
+            rterms.append(v)
+            rsrc.append((c, o))
+    rmism = []
+    try:
+        if rterms:
+            rres, rpred = vlib.model_eval("C04", rterms, predict=True)
+            rmism = [i for i, ok in enumerate(rres) if not ok]
+            for i in rmism[:2]:
+                ctx.violation("model-mismatch-interleaving", "Corr/C04.check_race: Model/TunnelRace.v (late_agree=%s) and the real SessionManager disagree on "
+                              "[%s]: model predicts [bridge mapping, source, target]=%s, observed %s; the interleaving theorems of Properties/C04.v no "
+                              "longer speak about this code" % (not late_defect, race_str(rsrc[i][0]), rpred[i], [rsrc[i][1]["mid_end"], rsrc[i][1]["src"], rsrc[i][1]["tgt"]]),
+                              {"case": rsrc[i][0], "observed": rsrc[i][1], "model": rpred[i]}, found_input=False)
     except vlib.Broken as b:
         broken = broken or b
     terms = [[[vf, si], cell_codes(c), [o["ack"], o["role"], o["entitled"]]] for c, o in zip(cases, outs)]
@@ -473,7 +576,14 @@ def run(ctx, only_cases=None):
         o = probe(p)
         samples.append({"cell": p, "reads": describe(p), "observed": {k: o[k] for k in ("ack", "role", "got_bytes", "marker_at", "entitled", "prop_ok")}})
     ctx.coverage.update({
-        "evaluations": len(cases) + len(hists), "distinct_nontrivial": len(nontrivial) + len(h_nontrivial), "exhaustive": only_cases is None,
+        "evaluations": len(cases) + len(hists) + len(races), "distinct_nontrivial": len(nontrivial) + len(h_nontrivial), "exhaustive": only_cases is None,
+        "interleavings": {"driven": len(races), "b_parked": sum(1 for o in routs if o["b_parked"]),
+                          "parked_at_ack_write": sum(1 for c, o in zip(races, routs) if o["b_parked"] and c["gate"] == 0),
+                          "both_attached_or_replaced": sum(1 for o in routs if o["src"] and o["tgt"]),
+                          "model_vs_impl": len(rterms), "model_vs_impl_mismatches": len(rmism), "predicate_failures": rfail,
+                          "known_defect_cases": rknown, "late_agreement_check_present": not late_defect,
+                          "samples": [{"case": race_str(c), "observed": {k: o[k] for k in ("b_parked", "ack_a", "ack_b", "mid_end", "src", "tgt", "readers")}}
+                                      for c, o in list(zip(races, routs))[:2]]},
         "histories": {"driven": len(hists), "with_routing_table": len(h_route), "distinct_nontrivial": len(h_nontrivial),
                       "steps_total": sum(len(h["steps"]) for h in hists), "parked_requests": h_parked, "parked_then_attached_or_forwarded": h_resolved_attached,
                       "attachments_checked": h_attach, "ambiguous_skipped_in_diff": sum(1 for o in houts if o["ambiguous"]),
@@ -482,8 +592,8 @@ def run(ctx, only_cases=None):
                       "samples": [{"history": hist_str(h), "observed": [[x["ack"], x["role"], x["snap"]] for x in o["steps"]], "readers": o["readers"]}
                                   for h, o in list(zip(hists, houts))[:: max(1, len(hists) // 3)][:3]]},
         "rule": "the full table identity(5: none/half-handshaken/listen/target/stranger) x named mapping(3: none/the tunnel's/another one owned by "
-                "the requester) x secret(3) x resume token(2) x state of the named mapping(5) x tunnel state at arrival(4: no bridge / bridge "
-                "waiting locally / bridge already served / waiting on another node via the routing table) = 1800 cells, every one driven through "
+                "the requester) x secret(10) x resume token(2) x state of the named mapping(5) x tunnel state at arrival(4: no bridge / bridge "
+                "waiting locally / bridge already served / waiting on another node via the routing table) = 6000 cells (secret: none / right / unrelated / first character / all but last / all but first / right+1 / case flipped / one character changed / another mapping's secret), every one driven through "
                 "the real SessionManager.HandlePacket on fresh connections, mappings and tunnel ids of a fully wired server fixture (real "
                 "handshakes, real bridge, real routing table and dedicated cross-node connection to a fake peer node); witnesses and corpus "
                 "first, arrival order shuffled from VERIF_SEED (thorough: four orders). distinct = distinct cells; non-trivial = a tunnel "
@@ -509,6 +619,7 @@ def run(ctx, only_cases=None):
         "no-bridge cells run on a fixture without routing table (a legitimate target with no bridge anywhere otherwise polls the routing table for 10 s)",
         "concurrent TunnelOpen packets for the same tunnel id are serialised in the model (one open is atomic); histories in which two requests are parked on one tunnel id at once are checked by the predicate but not diffed (resolution order is the scheduler's)",
         "histories never touch a tunnel id again after its bridge was closed (the real lifecycle goroutine removes map and routing entries asynchronously) and never re-use a connection for a second TunnelOpen",
+        "interleavings: request A is atomic with respect to request B (B is parked at ONE point: its n-th storage read of its mapping, or its acknowledgement write), both orders; the model (Base/Threads) covers every schedule of any number of requests at the granularity lookup / create-attach",
         "a parked request is recognised by the harness as: success ack written, no routing record visible, call still inside HandlePacket after 120 ms",
     ]
     if broken is not None:
